@@ -147,6 +147,11 @@ class TcpConnection(object):
         data = struct.pack('i', len(data)) + data
         self.__writeBuffer += data
         self.__trySendBuffer()
+        if self.__writeBuffer and self.__fileno is not None and self.__state == CONNECTION_STATE.CONNECTED:
+            # socket buffer is full: the rest is sent when the socket becomes writable again
+            self.__poller.subscribe(self.__fileno,
+                                     self.__processConnection,
+                                     POLL_EVENT_TYPE.READ | POLL_EVENT_TYPE.WRITE | POLL_EVENT_TYPE.ERROR)
 
     def fileno(self):
         return self.__fileno
